@@ -64,6 +64,8 @@ CapEvents(b) ==
   \cup {E("shrink_to_fit", "", b, NoY, [z |-> 0])}
   \cup {E("split_off", "", b, NoY, [i |-> i]) : i \in Cuts(n)}
   \cup {E(op, f, b, VecY(y), [z |-> 0]) : op \in {"add", "sub", "or", "xor"}, f \in {"av", "ar"}, y \in Operands}
+  \* Clone::clone_from: the subject becomes a copy of a source of its own type (its storage may be reused)
+  \cup {E("clone_from", "", b, VecY(y), [z |-> 0]) : y \in {o \in Operands : Len(o) <= MaxLen}}
 
 OtherEvents(b) ==
   LET n == Len(b) IN
@@ -90,6 +92,7 @@ TransitionOK(ev, r) ==
   /\ MaxLen <= 20 => C07(ev, r)          \* numeric statement (Val): small scope only
   /\ C19(ev, r)
   /\ ev.op \in {"reserve", "shrink_to_fit"} => r.pb = ev.x.b
+  /\ ev.op = "clone_from" => r.pb = ev.y.b /\ r.o = OUnit
   /\ r.o.t # "panic"
   /\ IsBits(r.pb)
 
@@ -114,6 +117,7 @@ NewLen(ev) ==
     [] ev.op \in {"append", "prepend", "insert"} -> n + Len(ev.y.b)
     [] ev.op = "extend" -> n + Len(ev.a.bits)
     [] ev.op = "split_off" -> ev.a.i
+    [] ev.op = "clone_from" -> Len(ev.y.b)
     [] OTHER -> n
 
 \* Simulation: ONE call per step, drawn at random (TLC!RandomElement), so that `tlc -simulate`
@@ -124,9 +128,9 @@ NewLen(ev) ==
 OpNames ==
   CASE Profile = "edits" -> {"push", "pop", "set", "resize", "truncate", "sign_extend", "append", "prepend", "insert", "extend"}
     [] Profile = "cap"   -> {"push", "pop", "set", "resize", "truncate", "sign_extend", "append", "prepend", "insert", "extend",
-                             "reserve", "shrink_to_fit", "split_off", "arith", "resize", "append"}
+                             "reserve", "shrink_to_fit", "split_off", "arith", "resize", "append", "clone_from"}
     [] Profile = "all"   -> {"push", "pop", "set", "resize", "truncate", "sign_extend", "append", "prepend", "insert", "extend",
-                             "reserve", "shrink_to_fit", "split_off", "arith", "shl_in", "shr_in", "rotl", "rotr", "shift", "arith2", "arithint", "divint"}
+                             "reserve", "shrink_to_fit", "split_off", "arith", "shl_in", "shr_in", "rotl", "rotr", "shift", "arith2", "arithint", "divint", "clone_from"}
 EventFor(b, op, c, m, y, i, k, f, aop) ==
   LET n == Len(b) IN
   CASE op = "push" -> E("push", "", b, NoY, [bit |-> c])
@@ -142,6 +146,7 @@ EventFor(b, op, c, m, y, i, k, f, aop) ==
     [] op = "reserve" -> E("reserve", "", b, NoY, [n |-> k])
     [] op = "shrink_to_fit" -> E("shrink_to_fit", "", b, NoY, [z |-> 0])
     [] op = "split_off" -> E("split_off", "", b, NoY, [i |-> i % (n + 1)])
+    [] op = "clone_from" -> E("clone_from", "", b, VecY(y), [z |-> 0])
     [] op = "arith" -> E(aop, f, b, VecY(y), [z |-> 0])
     [] op = "arith2" -> E(IF c = 0 THEN "and" ELSE "mul", f, b, VecY(IF Len(y) > 20 THEN Ones(130) ELSE y), [z |-> 0])
     [] op = "arithint" -> E(aop, f, b, IntY("u8", Fit(y \o <<1>>, 8)), [z |-> 0])
